@@ -361,7 +361,7 @@ Proof.
   intros k. split; cbn; [reflexivity|]. apply absent_default_nil; [apply rsub_refl|intros x y; reflexivity].
 Qed.
 
-Lemma KI_ins : forall s g p, KI s g ->
+Lemma KI_ins : forall s g (p : T3), KI s g ->
   exists n' b, (let '(n, d, t) := s in t_insert n (fst p) (fst (snd p)) (snd (snd p))) = Ok (n', b) /\
                KI (let '(n, d, t) := s in (n', d, t)) (ghost_step T3 g (PIns p)).
 Proof.
@@ -393,8 +393,21 @@ Proof. intros n d t g H1 H2 H3 H4. unfold KI. auto. Qed.
 Lemma gk_merge : forall k g, gk k (ghost_step T3 g PMerge) = ghost_step T2 (gk k g) PMerge.
 Proof. intros k g. apply ghost_eq; cbn [gk ghost_step g_t g_td g_new]; try reflexivity. apply proj_app. Qed.
 
+Definition osrv (o : option common) (x y : nat) : Prop := exists c, o = Some c /\ In (x, y) (itl c).
+Definition kfacts (g : ghost T2) (od' ot' : option common) : Prop :=
+  (forall x y, osrv ot' x y -> rtc (g_td T2 g) x y \/ osrv od' x y) /\
+  (g_new T2 g = [] -> forall x y, osrv od' x y -> osrv ot' x y).
+
+Lemma itl_ok : forall c l, c_iter_all c = Ok l -> itl c = l.
+Proof. intros c l H. unfold itl. rewrite H. reflexivity. Qed.
+Lemma osrv_some : forall c x y, osrv (Some c) x y <-> In (x, y) (itl c).
+Proof. intros c x y. split; [intros [c' [E H]]; inversion E; subst; exact H|intros H; exists c; auto]. Qed.
+Lemma osrv_none : forall x y, ~ osrv None x y.
+Proof. intros x y [c [E _]]. discriminate. Qed.
+
 Lemma KI_merge : forall s g, KI s g ->
-  exists s', (let '(n, d, t) := s in t_merge n d t) = Ok s' /\ KI s' (ghost_step T3 g PMerge).
+  exists N' D' T', (let '(n, d, t) := s in t_merge n d t) = Ok (N', D', T') /\ KI (N', D', T') (ghost_step T3 g PMerge) /\
+    forall k, kfacts (gk k g) (aget k (tm D')) (aget k (tm T')).
 Proof.
   intros [[N D] Tt] g [Wn [Wd [Wt HK]]]. destruct Wn as [Nn [Fn1 Fn2]]. destruct Wd as [Nd [Fd1 Fd2]]. destruct Wt as [Nt [Ft1 Ft2]].
   unfold t_merge.
@@ -416,27 +429,47 @@ Proof.
     destruct (kmerge_new _ nw _ (conj Hn Hs)) as [n1 [d1 [t1 [Hm _]]]]. eexists; exact Hm. }
   rewrite Hf2. cbn [bind]. specialize (NT2 NT1). specialize (NM2 NM1).
   (* what the three maps hold for a key afterwards *)
-  assert (HK' : forall k, KI1 None (aget k ndm2) (aget k totm2) (gk k (ghost_step T3 g PMerge))).
-  { intros k. rewrite gk_merge. destruct (HK k) as [Hn Hs]. split; [reflexivity|].
+  assert (HK' : forall k, KI1 None (aget k ndm2) (aget k totm2) (gk k (ghost_step T3 g PMerge)) /\
+                          kfacts (gk k g) (aget k ndm2) (aget k totm2)).
+  { intros k. rewrite gk_merge. destruct (HK k) as [Hn Hs].
     destruct (aget k (tm D)) as [d|] eqn:Hd.
     - pose proof (aget_in _ _ _ _ Hd) as Hin. destruct (I1 k d Hin) as [n1 [d1 [t1 [Hm [E1 [E2 E3]]]]]].
       assert (Hk2 : ~ In k (map fst newm1)) by (apply aget_none_keys; exact E1).
       destruct (O2 k Hk2) as [E4 E5]. rewrite E4, E5, E2, E3. cbn [aget nget].
-      destruct (kmerge_delta _ _ d _ (conj Hn Hs)) as [n1' [d1' [t1' [Hm' Hs']]]]. rewrite Hm in Hm'. inversion Hm'; subst n1' d1' t1'.
-      destruct (temp d1) eqn:Ht; cbn [kshape]; [|exact Hs']. apply (kshape_drop _ d1 t1 Hs'). rewrite c_trait_ok, Ht. reflexivity.
+      destruct (kmerge_delta _ _ d _ (conj Hn Hs)) as [n1' [d1' [t1' [Hm' [Hs' [M1 [M2 M3]]]]]]]. rewrite Hm in Hm'. inversion Hm'; subst n1' d1' t1'.
+      destruct (temp d1) eqn:Ht.
+      + assert (Hce : c_trait_is_empty d1 = Ok true) by (rewrite c_trait_ok, Ht; reflexivity).
+        split; [split; [reflexivity|exact (kshape_drop _ d1 t1 Hs' Hce)]|]. split.
+        * intros x y H. apply osrv_some in H. left.
+          destruct (shape_reads _ _ _ Hs') as [[ld [Hld _]] [[lt [Hlt _]] [_ Hsrv]]]. rewrite (itl_ok _ _ Hlt) in H.
+          assert (Hr : rtc (g_td T2 (ghost_step T2 (gk k g) PMerge)) x y) by (apply Hsrv; exists ld, lt; auto).
+          cbn [ghost_step g_td] in Hr. rewrite (M3 Hce), app_nil_r in Hr. exact Hr.
+        * intros _ x y H. exfalso. exact (osrv_none _ _ H).
+      + split; [split; [reflexivity|exact Hs']|]. split.
+        * intros x y H. apply osrv_some in H. destruct (M1 x y H) as [H1|H1]; [left; exact H1|right; apply osrv_some; exact H1].
+        * intros Hg x y H. apply osrv_some in H. apply osrv_some. apply (M2 Hg x y H).
     - assert (HkD : ~ In k (map fst (tm D))) by (apply aget_none_keys; exact Hd).
       destruct (O1 k HkD) as [E1 [E2 E3]]. cbn [aget] in E3.
       destruct (aget k (tm N)) as [nw|] eqn:Hnw.
       + assert (Hin : In (k, nw) newm1) by (apply aget_in; rewrite E1; reflexivity).
         destruct (I2 k nw Hin) as [n1 [d1 [t1 [Hm [E4 E5]]]]]. rewrite E2 in Hm, E4. rewrite E4, E5.
-        destruct (kmerge_new _ nw _ (conj Hn Hs)) as [n1' [d1' [t1' [Hm' [Hs' Hnone]]]]]. rewrite Hm in Hm'. inversion Hm'; subst n1' d1' t1'.
-        cbn [kshape]. destruct (aget k (tm Tt)) as [tc|]; cbn [nget]; [exact Hs'|]. rewrite (Hnone eq_refl) in Hs'. exact Hs'.
+        destruct (kmerge_new _ nw _ (conj Hn Hs)) as [n1' [d1' [t1' [Hm' [Hs' [Hnone [M1 [M2 M3]]]]]]]]. rewrite Hm in Hm'. inversion Hm'; subst n1' d1' t1'.
+        split; [split; [reflexivity|]|split].
+        * cbn [kshape]. destruct (aget k (tm Tt)) as [tc|]; cbn [nget]; [exact Hs'|]. rewrite (Hnone eq_refl) in Hs'. exact Hs'.
+        * intros x y H. destruct (aget k (tm Tt)) as [tc|]; [|exfalso; exact (osrv_none _ _ H)].
+          apply osrv_some in H. destruct (M1 x y H) as [H1|H1]; [left; exact H1|right; apply osrv_some; exact H1].
+        * intros Hg x y H. apply osrv_some in H. pose proof (M2 Hg x y H) as H1.
+          destruct (aget k (tm Tt)) as [tc|]; [apply osrv_some; exact H1|]. rewrite (Hnone eq_refl) in H1. destruct H1.
       + assert (Hk2 : ~ In k (map fst newm1)) by (apply aget_none_keys; rewrite E1; reflexivity).
-        destruct (O2 k Hk2) as [E4 E5]. rewrite E4, E5, E2, E3. cbn [kshape knew] in *. apply kidle; assumption. }
+        destruct (O2 k Hk2) as [E4 E5]. rewrite E4, E5, E2, E3. cbn [kshape knew] in *.
+        split; [split; [reflexivity|apply kidle; assumption]|]. split.
+        * intros x y [c [Hc H]]. left. rewrite Hc in Hs. cbn [nget] in Hs. destruct (absent_reads _ _ Hs) as [lt [Hlt [_ Hq]]].
+          rewrite (itl_ok _ _ Hlt) in H. apply Hq. exact H.
+        * intros _ x y H. exfalso. exact (osrv_none _ _ H). }
   (* the delta's reverse maps are rebuilt from maps that can be read *)
   assert (Hrb : forall rev, exists r, rebuild_rev rev ndm2 = Ok r).
   { intros rev. apply rebuild_rev_ok. intros k c Hkc. pose proof (in_aget _ _ _ _ NM2 Hkc) as Hc.
-    destruct (HK' k) as [_ Hs]. rewrite Hc in Hs. cbn [kshape] in Hs. destruct (shape_reads _ _ _ Hs) as [_ [_ [Hr _]]]. apply Hr. }
+    destruct (HK' k) as [[_ Hs] _]. rewrite Hc in Hs. cbn [kshape] in Hs. destruct (shape_reads _ _ _ Hs) as [_ [_ [Hr _]]]. apply Hr. }
   destruct (Hrb false) as [rb1 Hrb1]. destruct (Hrb true) as [rb2 Hrb2].
   assert (Hsome : forall (o : option mset) b, osome o = b -> b = true -> exists m, o = Some m).
   { intros [m|] b H1 H2; [eexists; reflexivity|]. cbn in H1. congruence. }
@@ -445,19 +478,183 @@ Proof.
   destruct has1 eqn:H1; destruct has2 eqn:H2.
   - destruct (Hsome _ _ Fn1 eq_refl) as [a1 ->]. destruct (Hsome _ _ Fd1 eq_refl) as [b1 ->]. destruct (Hsome _ _ Ft1 eq_refl) as [c1 ->].
     destruct (Hsome _ _ Fn2 eq_refl) as [a2 ->]. destruct (Hsome _ _ Fd2 eq_refl) as [b2 ->]. destruct (Hsome _ _ Ft2 eq_refl) as [c2 ->].
-    cbn [of_opt bind]. rewrite Hrb1, Hrb2. cbn [bind]. eexists. split; [reflexivity|].
-    apply KI_build; [| | |exact HK']; (split; [cbn [tm map]; first [constructor|assumption]|cbn [rm1 rm2 osome]; split; congruence]).
+    cbn [of_opt bind]. rewrite Hrb1, Hrb2. cbn [bind]. eexists _, _, _. split; [reflexivity|]. cbn [tm]. split; [|intros k; apply HK'].
+    apply KI_build; [| | |intros k; apply HK']; (split; [cbn [tm map]; first [constructor|assumption]|cbn [rm1 rm2 osome]; split; congruence]).
   - destruct (Hsome _ _ Fn1 eq_refl) as [a1 ->]. destruct (Hsome _ _ Fd1 eq_refl) as [b1 ->]. destruct (Hsome _ _ Ft1 eq_refl) as [c1 ->].
     rewrite (Hnone _ _ Fn2 eq_refl), (Hnone _ _ Fd2 eq_refl), (Hnone _ _ Ft2 eq_refl).
-    cbn [of_opt bind]. rewrite Hrb1. cbn [bind]. eexists. split; [reflexivity|].
-    apply KI_build; [| | |exact HK']; (split; [cbn [tm map]; first [constructor|assumption]|cbn [rm1 rm2 osome]; split; congruence]).
+    cbn [of_opt bind]. rewrite Hrb1. cbn [bind]. eexists _, _, _. split; [reflexivity|]. cbn [tm]. split; [|intros k; apply HK'].
+    apply KI_build; [| | |intros k; apply HK']; (split; [cbn [tm map]; first [constructor|assumption]|cbn [rm1 rm2 osome]; split; congruence]).
   - rewrite (Hnone _ _ Fn1 eq_refl), (Hnone _ _ Fd1 eq_refl), (Hnone _ _ Ft1 eq_refl).
     destruct (Hsome _ _ Fn2 eq_refl) as [a2 ->]. destruct (Hsome _ _ Fd2 eq_refl) as [b2 ->]. destruct (Hsome _ _ Ft2 eq_refl) as [c2 ->].
-    cbn [of_opt bind]. rewrite Hrb2. cbn [bind]. eexists. split; [reflexivity|].
-    apply KI_build; [| | |exact HK']; (split; [cbn [tm map]; first [constructor|assumption]|cbn [rm1 rm2 osome]; split; congruence]).
+    cbn [of_opt bind]. rewrite Hrb2. cbn [bind]. eexists _, _, _. split; [reflexivity|]. cbn [tm]. split; [|intros k; apply HK'].
+    apply KI_build; [| | |intros k; apply HK']; (split; [cbn [tm map]; first [constructor|assumption]|cbn [rm1 rm2 osome]; split; congruence]).
   - rewrite (Hnone _ _ Fn1 eq_refl), (Hnone _ _ Fd1 eq_refl), (Hnone _ _ Ft1 eq_refl).
     rewrite (Hnone _ _ Fn2 eq_refl), (Hnone _ _ Fd2 eq_refl), (Hnone _ _ Ft2 eq_refl).
-    cbn [of_opt bind]. eexists. split; [reflexivity|].
-    apply KI_build; [| | |exact HK']; (split; [cbn [tm map]; first [constructor|assumption]|cbn [rm1 rm2 osome]; split; congruence]).
+    cbn [of_opt bind]. eexists _, _, _. split; [reflexivity|]. cbn [tm]. split; [|intros k; apply HK'].
+    apply KI_build; [| | |intros k; apply HK']; (split; [cbn [tm map]; first [constructor|assumption]|cbn [rm1 rm2 osome]; split; congruence]).
 Qed.
+
+Lemma req_nil_of_rsub : forall A, rsub A [] -> req [] A.
+Proof. intros A H x y. split; [intros H0; exfalso; exact (rtc_nil_false _ _ H0)|apply H]. Qed.
+
+Lemma KI_restart : forall s g, KI s g -> g_new T3 g = [] -> incl (g_td T3 g) (g_t T3 g) ->
+  KI (pt_restart s) (ghost_step T3 g PRestart).
+Proof.
+  intros [[N D] Tt] g [Wn [Wd [Wt HK]]] Hn Hi. unfold pt_restart.
+  apply KI_build; [apply twf_default|exact Wt|apply twf_default|]. intros k. cbn [t_default tm aget].
+  assert (Hg : gk k (ghost_step T3 g PRestart) = ghost_step T2 (gk k g) PRestart) by (apply ghost_eq; reflexivity).
+  rewrite Hg. set (gg := gk k g) in *.
+  assert (Hng : g_new T2 gg = []) by (unfold gg; cbn [gk g_new]; rewrite Hn; reflexivity).
+  assert (Hig : incl (g_td T2 gg) (g_t T2 gg)) by (intros p Hp; apply proj_in; apply Hi; apply proj_in; exact Hp).
+  split; [reflexivity|]. cbn [nget]. destruct (HK k) as [_ Hs]. fold gg in Hs.
+  destruct (aget k (tm Tt)) as [tc|] eqn:Ht; cbn [nget kshape] in *.
+  - destruct (aget k (tm D)) as [d|]; cbn [kshape] in Hs.
+    + assert (HI : Inv (CNew [], d, tc) gg).
+      { split; [exists []; split; [reflexivity|]; intros p; rewrite Hng; reflexivity|exact Hs]. }
+      exact (proj2 (Inv_restart _ _ HI Hng Hig)).
+    + destruct Hs as [tt [Et [-> [HE [Hq Hgt]]]]]. apply (sh_total _ tt Et HE); [|apply rsub_refl].
+      cbn [ghost_step g_td]. intros x y. split; [intros H; apply (rsub_incl _ _ Hig), Hq; exact H|apply Hgt].
+  - apply absent_default_nil; [apply rsub_refl|]. cbn [ghost_step g_td]. apply req_nil_of_rsub.
+    destruct (aget k (tm D)) as [d|]; cbn [kshape] in Hs.
+    + unfold c_default in Hs. remember (CTotal tr_empty) as tc eqn:Etc. destruct Hs as [U Eu HU Hq Hz|dd Et HE _ _ _ _ Hgt _ _]; [exact Hz|].
+      inversion Etc as [Hdt]. rewrite Hdt in HE. assert (Et = []) by (apply (q_is_empty _ _ HE); reflexivity). subst Et. exact Hgt.
+    + destruct Hs as [tt [Et [Etc [HE [_ Hgt]]]]]. unfold c_default in Etc. inversion Etc; subst tt.
+      assert (Et = []) by (apply (q_is_empty _ _ HE); reflexivity). subst Et. exact Hgt.
+Qed.
+
+Theorem KI_run : forall h, qhist3 h -> KI (run T3 PT h) (ghost_of T3 h).
+Proof.
+  intros h Hq. induction Hq as [|h p _ IH|h _ IH|h _ IH Hn Hi].
+  - apply KI_init.
+  - rewrite run_snoc, ghost_of_snoc. cbn [step PT p_ins]. destruct (KI_ins _ _ p IH) as [n' [b [Hi HK]]].
+    destruct (run T3 PT h) as [[n d] t]. cbv beta iota in Hi, HK. unfold pt_ins. rewrite Hi. exact HK.
+  - rewrite run_snoc, ghost_of_snoc. cbn [step PT p_merge]. destruct (KI_merge _ _ IH) as [N' [D' [T' [Hm [HK _]]]]].
+    destruct (run T3 PT h) as [[n d] t]. cbv beta iota in Hm. unfold pt_merge. rewrite Hm. exact HK.
+  - rewrite run_snoc, ghost_of_snoc. cbn [step PT p_restart]. apply KI_restart; assumption.
+Qed.
+
+(* ---- what the versions serve *)
+Lemma ver_reads : forall s g v, KI s g ->
+  NoDup (map fst (tm (pt_ver s v))) /\
+  forall k c, aget k (tm (pt_ver s v)) = Some c ->
+    exists l, c_iter_all c = Ok l /\ forall x y, exists b, c_contains c x y = Ok b /\ (b = true <-> In (x, y) l).
+Proof.
+  intros [[N D] Tt] g v [Wn [Wd [Wt HK]]]. destruct v; cbn [pt_ver].
+  - split; [apply Wt|]. intros k c Hc. destruct (HK k) as [_ Hs]. rewrite Hc in Hs. cbn [nget] in Hs.
+    destruct (aget k (tm D)) as [d|]; cbn [kshape] in Hs.
+    + destruct (shape_reads _ _ _ Hs) as [_ [H _]]. exact H.
+    + destruct (absent_reads _ _ Hs) as [lt [Hlt [Hc' _]]]. exists lt. auto.
+  - split; [apply Wd|]. intros k c Hc. destruct (HK k) as [_ Hs]. rewrite Hc in Hs. cbn [kshape] in Hs.
+    destruct (shape_reads _ _ _ Hs) as [H _]. exact H.
+Qed.
+
+Lemma pt_read_osrv : forall s g v, KI s g ->
+  (exists L, t_all (pt_ver s v) = Ok L) /\
+  (forall k x y, In (k, (x, y)) (pt_read s v) <-> osrv (aget k (tm (pt_ver s v))) x y) /\
+  (forall k x y, exists b, t_contains (pt_ver s v) k x y = Ok b /\ (b = true <-> In (k, (x, y)) (pt_read s v))).
+Proof.
+  intros s g v HK. destruct (ver_reads s g v HK) as [Hnd Hr].
+  destruct (t_all_spec (pt_ver s v) Hnd) as [L [HL Hin]].
+  { intros k c Hkc. destruct (Hr k c (in_aget _ _ _ _ Hnd Hkc)) as [l [Hl _]]. exists l; exact Hl. }
+  assert (Hosrv : forall k x y, In (k, (x, y)) (pt_read s v) <-> osrv (aget k (tm (pt_ver s v))) x y).
+  { intros k x y. unfold pt_read. rewrite HL, Hin. split.
+    - intros [c [l [Hc [Hl H]]]]. exists c. split; [exact Hc|]. rewrite (itl_ok _ _ Hl). exact H.
+    - intros [c [Hc H]]. destruct (Hr k c Hc) as [l [Hl _]]. exists c, l. rewrite (itl_ok _ _ Hl) in H. auto. }
+  split; [exists L; exact HL|]. split; [exact Hosrv|].
+  intros k x y. unfold t_contains. destruct (aget k (tm (pt_ver s v))) as [c|] eqn:Hc.
+  - destruct (Hr k c Hc) as [l [Hl Hcc]]. destruct (Hcc x y) as [b [Hb Hbb]]. exists b. split; [exact Hb|].
+    rewrite Hbb, Hosrv, Hc, osrv_some, (itl_ok _ _ Hl). reflexivity.
+  - exists false. split; [reflexivity|]. rewrite Hosrv, Hc. split; [discriminate|]. intros H. exfalso. exact (osrv_none _ _ H).
+Qed.
+
+Lemma itl_default : itl c_default = [].
+Proof. reflexivity. Qed.
+
+Lemma served_key : forall s g, KI s g ->
+  forall k x y, (osrv (aget k (tm (pt_ver s VTotal))) x y \/ osrv (aget k (tm (pt_ver s VDelta))) x y) <-> rtc (proj k (g_td T3 g)) x y.
+Proof.
+  intros [[N D] Tt] g [_ [_ [_ HK]]] k x y. cbn [pt_ver]. destruct (HK k) as [_ Hs]. change (proj k (g_td T3 g)) with (g_td T2 (gk k g)).
+  assert (Hnget : forall o, (exists l, c_iter_all (nget o) = Ok l) -> forall u w, osrv o u w <-> In (u, w) (itl (nget o))).
+  { intros [c|] _ u w; cbn [nget]; [apply osrv_some|]. rewrite itl_default. split; [intros H; exact (osrv_none _ _ H)|intros []]. }
+  destruct (aget k (tm D)) as [d|]; cbn [kshape] in Hs.
+  - destruct (shape_reads _ _ _ Hs) as [[ld [Hld _]] [[lt [Hlt _]] [_ Hsrv]]].
+    rewrite (Hnget _ (ex_intro _ lt Hlt)), osrv_some, (itl_ok _ _ Hlt), (itl_ok _ _ Hld), <- Hsrv. split.
+    + intros H. exists ld, lt. auto.
+    + intros [ld' [lt' [E1 [E2 H]]]]. rewrite Hld in E1. rewrite Hlt in E2. inversion E1; inversion E2; subst. exact H.
+  - destruct (absent_reads _ _ Hs) as [lt [Hlt [_ Hq]]].
+    rewrite (Hnget _ (ex_intro _ lt Hlt)), (itl_ok _ _ Hlt), <- Hq. split; [intros [H|H]; [exact H|exfalso; exact (osrv_none _ _ H)]|auto].
+Qed.
+
+(* ================================================================== the theorems *)
+Theorem pt_ops_ok : forall h n d t, qhist3 h -> run T3 PT h = (n, d, t) ->
+  (forall k x y, exists r, t_insert n k x y = Ok r) /\ (exists r, t_merge n d t = Ok r) /\
+  (forall v, exists L, t_all (pt_ver (n, d, t) v) = Ok L) /\
+  (forall v k x y, exists b, t_contains (pt_ver (n, d, t) v) k x y = Ok b).
+Proof.
+  intros h n d t Hq R. pose proof (KI_run h Hq) as HK. rewrite R in HK. split; [|split; [|split]].
+  - intros k x y. destruct (KI_ins _ _ (k, (x, y)) HK) as [n' [b [Hi _]]]. cbn [fst snd] in Hi. eexists; exact Hi.
+  - destruct (KI_merge _ _ HK) as [N' [D' [T' [Hm _]]]]. eexists; exact Hm.
+  - intros v. apply (pt_read_osrv _ _ v HK).
+  - intros v k x y. destruct (proj2 (proj2 (pt_read_osrv _ _ v HK)) k x y) as [b [Hb _]]. exists b; exact Hb.
+Qed.
+
+Theorem pt_contains_iff : forall h v p, qhist3 h -> (p_contains T3 PT (run T3 PT h) v p = true <-> In p (p_read T3 PT (run T3 PT h) v)).
+Proof.
+  intros h v [k [x y]] Hq. destruct (proj2 (proj2 (pt_read_osrv _ _ v (KI_run h Hq))) k x y) as [b [Hb Hbb]].
+  cbn [PT p_contains p_read]. unfold pt_contains. cbn [fst snd]. rewrite Hb. exact Hbb.
+Qed.
+
+(* soundness AND completeness of total + delta after every operation, key by key *)
+Theorem pt_served : forall h, qhist3 h ->
+  forall k x y, In (k, (x, y)) (served T3 PT (run T3 PT h)) <-> rtc (proj k (g_td T3 (ghost_of T3 h))) x y.
+Proof.
+  intros h Hq k x y. pose proof (KI_run h Hq) as HK. unfold served. cbn [PT p_read]. rewrite in_app_iff.
+  rewrite (proj1 (proj2 (pt_read_osrv _ _ VTotal HK)) k x y), (proj1 (proj2 (pt_read_osrv _ _ VDelta HK)) k x y).
+  apply (served_key _ _ HK).
+Qed.
+
+Theorem pt_first_insert : forall h p, qhist3 h -> g_new T3 (ghost_of T3 h) = [] -> snd (p_ins T3 PT (run T3 PT h) p) = true.
+Proof.
+  intros h [k [x y]] Hq Hn. pose proof (KI_run h Hq) as HK. cbn [PT p_ins]. destruct (run T3 PT h) as [[n d] t].
+  destruct HK as [_ [_ [_ HK]]]. destruct (HK k) as [Hnw _]. destruct (knew_unwrap _ _ Hnw) as [r [Hu Hr]].
+  unfold pt_ins, t_insert. cbn [fst snd]. fold (nget (aget k (tm n))). unfold c_insert. rewrite Hu. cbn [bind].
+  assert (r = []).
+  { destruct r as [|q r']; [reflexivity|]. exfalso. assert (Hq' : In q (g_new T2 (gk k (ghost_of T3 h)))) by (apply Hr; now left).
+    cbn [gk g_new] in Hq'. rewrite Hn in Hq'. destruct Hq'. }
+  subst r. reflexivity.
+Qed.
+
+Theorem pt_merge_total : forall h, qhist3 h ->
+  incl (p_read T3 PT (run T3 PT (h ++ [PMerge])) VTotal)
+       (served T3 PT (run T3 PT h) ++ p_read T3 PT (run T3 PT (h ++ [PMerge])) VDelta).
+Proof.
+  intros h Hq [k [x y]] H. pose proof (KI_run h Hq) as HK. pose proof (KI_run _ (q3_merge h Hq)) as HK'.
+  rewrite run_snoc in *. cbn [step PT p_merge p_read] in *. destruct (KI_merge _ _ HK) as [N' [D' [T' [Hm [_ HF]]]]].
+  unfold pt_merge in *. destruct (run T3 PT h) as [[n d] t] eqn:R. rewrite Hm in *.
+  apply (proj1 (proj2 (pt_read_osrv _ _ VTotal HK'))) in H. cbn [pt_ver] in H.
+  destruct (proj1 (HF k) x y H) as [H1|H1]; apply in_or_app.
+  - left. rewrite <- R. apply (pt_served h Hq). exact H1.
+  - right. apply (proj1 (proj2 (pt_read_osrv _ _ VDelta HK'))). exact H1.
+Qed.
+
+Theorem pt_quiescent : forall h, qhist3 h -> g_new T3 (ghost_of T3 h) = [] ->
+  incl (served T3 PT (run T3 PT (h ++ [PMerge]))) (p_read T3 PT (run T3 PT (h ++ [PMerge])) VTotal).
+Proof.
+  intros h Hq Hn [k [x y]] H. pose proof (KI_run h Hq) as HK. pose proof (KI_run _ (q3_merge h Hq)) as HK'. unfold served in H.
+  rewrite run_snoc in *. cbn [step PT p_merge p_read] in *. destruct (KI_merge _ _ HK) as [N' [D' [T' [Hm [_ HF]]]]].
+  unfold pt_merge in *. destruct (run T3 PT h) as [[n d] t] eqn:R. rewrite Hm in *.
+  apply in_app_or in H. destruct H as [H|H]; [exact H|].
+  apply (proj1 (proj2 (pt_read_osrv _ _ VDelta HK'))) in H. apply (proj1 (proj2 (pt_read_osrv _ _ VTotal HK'))). cbn [pt_ver] in *.
+  apply (proj2 (HF k)); [|exact H]. cbn [gk g_new]. rewrite Hn. reflexivity.
+Qed.
+
+Theorem pt_restart_serves : forall h,
+  incl (p_read T3 PT (run T3 PT h) VTotal) (served T3 PT (run T3 PT (h ++ [PRestart]))).
+Proof.
+  intros h p H. rewrite run_snoc. cbn [step PT p_restart]. unfold served. cbn [PT p_read] in *. apply in_or_app. right.
+  destruct (run T3 PT h) as [[n d] t]. exact H.
+Qed.
+
+Theorem pt_restart_total : forall h, p_read T3 PT (run T3 PT (h ++ [PRestart])) VTotal = [].
+Proof. intros h. rewrite run_snoc. cbn [step PT p_restart p_read]. destruct (run T3 PT h) as [[n d] t]. unfold pt_restart, pt_read, pt_ver, t_default. reflexivity. Qed.
 End Tern.
